@@ -77,6 +77,8 @@ def run(ctx):
     big = [n for n in sorted(deviating) if n > (1 << 26)]
     for n in big[:2] + big[-1:]:          # too large for a per-result histogram in the quick tier: decided by the count condition
         for d in sorted(deviating[n] | {1}):
+            if ctx.violations:
+                break            # already decided: further sweeps would only repeat the verdict
             drawfam_count(ctx, n, d, "decides a deviation seen in directed draws at a large bound")
     for n in sorted(deviating):
         if n < 2 or extra >= 3 or (quick and n > (1 << 26)):
@@ -86,6 +88,8 @@ def run(ctx):
             if (n, d) not in [(a, b) for a, b, _ in plan]:
                 plan.append((n, d, "decides a deviation seen in directed draws"))
     for n, d, why in plan:
+        if ctx.violations and "deviation" in why:
+            continue             # already decided
         decide_by_sweep(ctx, n, d, why)
     if deviating and not ctx.violations:
         ctx.notes.append("directed draws deviate from the specification's sampler shape at %d bounds but every decision sweep is flat: "
